@@ -35,7 +35,7 @@ REG = dict(level="translation_validation", min_nontrivial=500,
            note="Reference = the unfrozen evaluator of the same build; a defect shared by both paths is invisible here (C05 covers the evaluator).")
 
 OUTER = [("o1", INT, "3"), ("o2", INT, "(0 - 4)"), ("o3", LST, "[1, 2, 3]"), ("o4", STR, "\"s\""), ("o5", INT, "10")]
-PLANT_OUTER = ["o8 := 1", "o9 := 2"]
+PLANT_OUTER = ["o8 := 1", "o9 := 2", "o7l := [0, 0, 0]", "o7d := {}"]
 REASSIGN = ["o1 = 50", "o2 = 7", "o3 = [9]", "o4 = \"t\"", "o5 = (0 - 1)"]
 # outer functions are themselves frozen: their bodies must not depend on later `swap +, *`
 USER_OPS = ["op1 := freeze \\a, b -> a * 10 + b", "op2 := freeze \\a, b -> a - 2 * b", "op1::precedence = 6", "op2::precedence = 3"]
@@ -329,12 +329,22 @@ def gen_lambda(r, size):
     # negative literals must respect the local binding)
     if r.random() < 0.15:
         body = "(chm := (\\-, zz -> (-3) + zz)(\\b -> b * 10, %s); print(chm); %s)" % (r.choice(["1", "o1"] + params), body)
+    # builtin operators called in prefix form with literal arguments (constant folding must keep all arguments)
+    if r.random() < 0.15:
+        op = r.choice(["-", "+", "*", "max", "min"])
+        a1 = r.choice(["7", "10", "2"])
+        a2 = r.choice(["2", "o1", "o5"] + params)
+        form = r.choice(["%s(%s, %s)" % (op, a1, a2), "(%s) ! %s, %s" % (op, a1, a2) if op in ("-", "+", "*") else "%s ! %s, %s" % (op, a1, a2),
+                         "%s(%s, _)(%s)" % (op, a1, a2), "%s(%s)" % (op, a1) if op == "-" else "%s(%s, %s, 1)" % (op, a1, a2)])
+        body = "(chp := (try %s catch _e -> \"raised\"); print(chp); %s)" % (form, body)
     plant = None
     if static is None and r.random() < 0.12:
         # o8/o9 are outer variables the generator never mentions, so they cannot be shadowed locally
-        plant = r.choice(["unbound", "outer-assign", "import", "underscore", "outer-opassign", "unbound-call"])
+        plant = r.choice(["unbound", "outer-assign", "import", "underscore", "outer-opassign", "unbound-call",
+                          "outer-index-assign", "outer-index-opassign", "outer-key-assign", "unbound-index-assign"])
         bad = {"unbound": "zzq9 + 1", "outer-assign": "o8 = 5", "import": "import \"nolib\"", "underscore": "_",
-               "outer-opassign": "o9 += 1", "unbound-call": "nofn9(1)"}[plant]
+               "outer-opassign": "o9 += 1", "unbound-call": "nofn9(1)", "outer-index-assign": "o7l[0] = 5",
+               "outer-index-opassign": "o7l[1] += 1", "outer-key-assign": "o7d[\"k\"] = 1", "unbound-index-assign": "zzq8[0] = 1"}[plant]
         where = r.random()
         if where < 0.4:
             body = "(%s; %s)" % (bad, body)
